@@ -5,8 +5,14 @@ callbacks that call the alarm API themselves (scripts), and destruction of alarm
   * `watch` is WorkdayCalendar::watch_alarms_ (slot numbers stand for the Alarm pointers; order and
     duplicates kept: a failed enable() leaves its subscription behind, a second enable() adds one more).
   * a callback script runs where cb_() runs: AFTER the re-arm of Alarm::onTimeExpired.
-  * `destroy` follows the tree with patches/C20-03 (the WorkdayAlarm destructor unsubscribes);
-    `wDestroyUnpatched` is the behaviour before it (kept for the counterexample theorem).
+  * `destroy` follows the tree with patches/C20-03 + C20-11 (the WorkdayAlarm destructor runs cleanup() while its
+    own onDisable() is still reachable; an alarm that is not enabled holds no subscription and its destructor does
+    not touch the calendar); `wDestroyUnpatched` is the behaviour before C20-03, `wDestroyAsFound` the one between
+    C20-03 and C20-11 (unconditional unsubscribe through the raw calendar pointer) — kept for the counterexample theorems.
+  * the calendar is an object with a lifetime of its own (`calAlive`): alarms hold a raw pointer to it.  `uaf` is a ghost
+    flag: some step dereferenced the calendar after it was destroyed.  The contract (workday_alarm.h): the calendar
+    outlives every alarm that is ENABLED with it; `wValid` allows `caldel` only when no workday alarm is enabled.
+  * `gtod` is the oracle for gettimeofday(): while false every GetCurrentUtcTime() fails.
   * which of several due timers the loop serves first is left open exactly as in C02: `fire j` is
     enabled for every due timer of minimal deadline.
 -/
@@ -22,6 +28,7 @@ inductive Act where
   | init (j : Nat) (sod : Int) (mask : List Bool) (wd : Bool)    -- initialize() with another specification
   | tz (j : Nat) (minutes : Int)                                 -- setTimezone()
   | initc (j : Nat) (e : Option Cron.Expr)                       -- CronAlarm::initialize() with another expression (none = the parser rejects it)
+  | gtod (ok : Bool)                                             -- from now on gettimeofday() succeeds / fails
 deriving Repr
 
 /-- one served expiry (ghost log) -/
@@ -41,8 +48,13 @@ structure World where
   scripts : List (List Act) := [[], [], [], []]
   watch : List Nat := []
   log : List Served := []        -- newest first
+  gtod : Bool := true            -- oracle: gettimeofday() succeeds
+  calAlive : Bool := true        -- the WorkdayCalendar object exists
+  uaf : Bool := false            -- ghost: the calendar was dereferenced after its destruction
 
-def World.env (w : World) : Env := { wallMs := w.wallMs, monoMs := w.monoMs, cal := w.cal }
+def World.env (w : World) : Env := { wallMs := w.wallMs, monoMs := w.monoMs, cal := w.cal, gtod := w.gtod }
+/-- the step goes through `wp_calendar_` (subscribe / unsubscribe / isWorkay) -/
+def World.touchCal (w : World) (c : Bool) : World := if c then { w with uaf := w.uaf || !w.calAlive } else w
 def World.get (w : World) (j : Nat) : Option Alarm := w.slots.getD j none
 def World.put (w : World) (j : Nat) (a : Option Alarm) : World := { w with slots := w.slots.set j a }
 def World.script (w : World) (j : Nat) : List Act := w.scripts.getD j []
@@ -52,34 +64,55 @@ def wEnable (w : World) (j : Nat) : World × Bool :=
   | none => (w, false)
   | some a =>
     let r := enable a w.env
-    let watch := if a.st = .inited ∧ a.cls = .workday then w.watch ++ [j] else w.watch    -- onEnable: subscribe
-    ({ w.put j (some r.1) with watch := watch }, r.2)
+    let sub := decide (a.st = .inited ∧ a.cls = .workday)      -- onEnable ran: subscribe; when the arm fails onDisable takes it back
+    let watch := if sub then (if r.2 then w.watch ++ [j] else w.watch.filter (· != j)) else w.watch
+    (({ w.put j (some r.1) with watch := watch } : World).touchCal sub, r.2)
 
 def wDisable (w : World) (j : Nat) : World × Bool :=
   match w.get j with
   | none => (w, false)
   | some a =>
     let r := disable a
-    let watch := if a.st = .running ∧ a.cls = .workday then w.watch.filter (· != j) else w.watch   -- onDisable: unsubscribe
-    ({ w.put j (some r.1) with watch := watch }, r.2)
+    let sub := decide (a.st = .running ∧ a.cls = .workday)
+    let watch := if sub then w.watch.filter (· != j) else w.watch   -- onDisable: unsubscribe
+    (({ w.put j (some r.1) with watch := watch } : World).touchCal sub, r.2)
 
+/-- refresh(): a running workday alarm asks the calendar (isWorkay); when no next instant is found it goes idle and
+onDisable() unsubscribes it (patches/C20-11) -/
 def wRefresh (w : World) (j : Nat) : World :=
   match w.get j with
   | none => w
-  | some a => w.put j (some (refresh a w.env))
+  | some a =>
+    let x := refresh a w.env
+    let sub := decide (a.st = .running ∧ a.cls = .workday)
+    let watch := if sub ∧ x.st ≠ .running then w.watch.filter (· != j) else w.watch
+    ({ w.put j (some x) with watch := watch } : World).touchCal sub
 
 def wCleanup (w : World) (j : Nat) : World :=
   match w.get j with
   | none => w
   | some a =>
-    let watch := if a.st = .running ∧ a.cls = .workday then w.watch.filter (· != j) else w.watch
-    { w.put j (some (cleanup a)) with watch := watch }
+    let sub := decide (a.st = .running ∧ a.cls = .workday)
+    let watch := if sub then w.watch.filter (· != j) else w.watch
+    ({ w.put j (some (cleanup a)) with watch := watch } : World).touchCal sub
 
-/-- `delete alarm` with patches/C20-03: ~WorkdayAlarm() { cleanup(); wp_calendar_->unsubscribe(this); } -/
+/-- `delete alarm` with patches/C20-03 + C20-11: ~WorkdayAlarm() { cleanup(); } — cleanup() disables an enabled alarm
+(onDisable: unsubscribe, the only access to the calendar); an alarm that is not enabled holds no subscription -/
 def wDestroy (w : World) (j : Nat) : World :=
   match w.get j with
   | none => w
-  | some _ => { w.put j none with watch := w.watch.filter (· != j) }
+  | some a =>
+    let sub := decide (a.st = .running ∧ a.cls = .workday)
+    let watch := if sub then w.watch.filter (· != j) else w.watch
+    ({ w.put j none with watch := watch } : World).touchCal sub
+
+/-- `delete alarm` as found before patches/C20-11: ~WorkdayAlarm() { cleanup(); if (wp_calendar_ != nullptr)
+wp_calendar_->unsubscribe(this); } — EVERY workday alarm that was ever initialised goes through the raw calendar pointer -/
+def wDestroyAsFound (w : World) (j : Nat) : World :=
+  match w.get j with
+  | none => w
+  | some a =>
+    ({ w.put j none with watch := w.watch.filter (· != j) } : World).touchCal (decide (a.cls = .workday) && a.calSet)
 
 /-- `delete alarm` on the unpatched tree: ~Alarm() → cleanup() → disable() → Alarm::onDisable()
 (the base version: the derived part is already gone) — nobody unsubscribes. -/
@@ -97,11 +130,13 @@ def wCalUpdate (w : World) (cal : Calendar) : World × Bool :=
     | none => (acc.1, true)
     | some _ => (wRefresh acc.1 j, acc.2)) (w1, false)
 
-/-- initialize(sod, …) of slot j -/
+/-- initialize(sod, …) of slot j; the harness passes the calendar it has: none after `caldel` (nullptr: rejected) -/
 def wInitOp (w : World) (j : Nat) (sod : Int) (m : List Bool) (wd : Bool) : World × Bool :=
   match w.get j with
   | none => (w, false)
-  | some a => let r := initAlarm a sod m wd; (w.put j (some r.1), r.2)
+  | some a =>
+    if a.cls = .workday ∧ w.calAlive = false then (w, false) else
+    let r := initAlarm a sod m wd; (w.put j (some r.1), r.2)
 
 def wTz (w : World) (j : Nat) (m : Int) : World × Bool :=
   match w.get j with
@@ -119,17 +154,24 @@ def wInitc (w : World) (j : Nat) (x : Option Cron.Expr) : World × Bool :=
   | none => (w, false)
   | some a => let r := initCron a x; (w.put j (some r.1), r.2)
 
+/-- enable() of slot j would go through a destroyed calendar (a contract violation of the USER: not executed) -/
+def enableNeedsDeadCal (w : World) (j : Nat) : Bool :=
+  match w.get j with
+  | some a => decide (a.cls = .workday ∧ a.st = .inited) && !w.calAlive
+  | none => false
+
 def applyAct (w : World) : Act → World
+  | .gtod ok => { w with gtod := ok }
   | .initc j x => (wInitc w j x).1
   | .cleanup j => (wSetCb (wCleanup w j) j).1
   | .init j sod m wd => (wInitOp w j sod m wd).1
   | .tz j m => (wTz w j m).1
   | .refresh j => wRefresh w j
   | .disable j => (wDisable w j).1
-  | .enable j => (wEnable w j).1
+  | .enable j => if enableNeedsDeadCal w j then w else (wEnable w j).1
   | .destroy j => wDestroy w j
-  | .calMask m => (wCalUpdate w { w.cal with weekMask := m }).1
-  | .calSp sp => (wCalUpdate w { w.cal with special := sp }).1
+  | .calMask m => if w.calAlive then (wCalUpdate w { w.cal with weekMask := m }).1 else w
+  | .calSp sp => if w.calAlive then (wCalUpdate w { w.cal with special := sp }).1 else w
 
 def runScript (w : World) : List Act → World
   | [] => w
@@ -156,7 +198,9 @@ def wFire (w : World) (j : Nat) : World :=
     let r := expire a w.env
     let ev : Served := { slot := j, instant := r.2.1, prev := a.lastServed, wasRunning := r.2.2,
                          inRange := !a.wrapped }
-    let w1 := { w.put j (some r.1) with log := ev :: w.log }
+    let sub := decide (a.cls = .workday)                        -- the re-arm asks the calendar; when it fails onDisable unsubscribes
+    let watch := if sub ∧ r.1.st ≠ .running then w.watch.filter (· != j) else w.watch
+    let w1 := ({ w.put j (some r.1) with log := ev :: w.log, watch := watch } : World).touchCal sub
     if a.hasCb then runScript w1 (w.script j) else w1
 
 /-- is any armed timer due? (a pass may only end when none is) -/
@@ -175,6 +219,8 @@ inductive WOp where
   | enable (j : Nat) | disable (j : Nat) | refresh (j : Nat) | cleanup (j : Nat) | setCb (j : Nat) | destroy (j : Nat)
   | calMask (m : Nat) | calSp (sp : List (Nat × Bool))
   | adv (d : Nat) | mono (d : Nat) | wall (v : Nat)
+  | gtod (ok : Bool)             -- oracle: gettimeofday() succeeds / fails from now on
+  | caldel                       -- the WorkdayCalendar is destroyed
 deriving Repr
 
 /-- an API call made outside callbacks / a clock change; the Bool is the call's result -/
@@ -196,13 +242,27 @@ def wOp (w : World) : WOp → World × Bool
   | .adv d => ({ w with wallMs := w.wallMs + d, monoMs := w.monoMs + d }, true)
   | .mono d => ({ w with monoMs := w.monoMs + d }, true)
   | .wall v => ({ w with wallMs := v }, true)
+  | .gtod ok => ({ w with gtod := ok }, true)
+  | .caldel => ({ w with calAlive := false, watch := [] }, true)
 
 inductive WStep where
   | op (o : WOp)
   | fire (j : Nat)
 deriving Repr
 
+/-- some workday alarm is enabled (it is subscribed to the calendar and will ask it at its next re-arm) -/
+def anyWorkdayRunning (w : World) : Bool :=
+  w.slots.any (fun o => match o with
+    | some a => decide (a.cls = .workday ∧ a.st = .running)
+    | none => false)
+
+/-- the user's side of the contract: the calendar is destroyed only when it exists and no workday alarm is enabled;
+afterwards no workday alarm is enabled again and the calendar is not updated -/
 def wValid (w : World) : WStep → Bool
+  | .op .caldel => w.calAlive && !anyWorkdayRunning w
+  | .op (.enable j) => !enableNeedsDeadCal w j
+  | .op (.calMask _) => w.calAlive
+  | .op (.calSp _) => w.calAlive
   | .op _ => true
   | .fire j => canFire w j
 
